@@ -421,13 +421,26 @@ def guard_rule(ctx):
     # the code, so that the encoding of the mode (Option<bool>, an enum) does not matter
     guard_of_mode = {}
     mode_nodes = {}
+    # legality may be asked through pass-through helpers (`has_legal_lvalue_path(scopes, mode)` handing its own parameter on)
+    asks = {"is_legal_lvalue_path": 1}   # method name -> index of the mode argument
+    for _round in range(3):
+        for g in tc.fns:
+            if not g.body or g.name in asks or g.ret != "bool":
+                continue
+            pn = [x for x in g.param_names() if x != "self"]
+            for x in sir.walk(g.body):
+                if x.get("k") == "mcall" and x["m"] in asks and len(x["args"]) > asks[x["m"]]:
+                    a_ = sir.strip_ref(x["args"][asks[x["m"]]])
+                    if a_.get("k") == "path" and len(a_["segs"]) == 1 and a_["segs"][0] in pn:
+                        asks[g.name] = pn.index(a_["segs"][0])
     for g in tc.fns:
-        if not g.body or g.name in ("is_legal_lvalue_path",):
+        if not g.body or g.name in asks:
             continue
         for x in sir.walk(g.body):
-            if x.get("k") == "mcall" and x["m"] == "is_legal_lvalue_path" and len(x["args"]) == 2 and g.ret == "bool":
-                guard_of_mode.setdefault(sir.expr_str(x["args"][1]), set()).add(g.name)
-                mode_nodes[sir.expr_str(x["args"][1])] = x["args"][1]
+            if x.get("k") == "mcall" and x["m"] in asks and len(x["args"]) > asks[x["m"]] and g.ret == "bool":
+                marg = x["args"][asks[x["m"]]]
+                guard_of_mode.setdefault(sir.expr_str(marg), set()).add(g.name)
+                mode_nodes[sir.expr_str(marg)] = marg
     if len(guard_of_mode) < 3:
         return [ob("C11.guard/anchor", False, "proc_gen/expr.rs", "the per-mode guards (methods asking is_legal_lvalue_path with a fixed mode) were not found: %s" % guard_of_mode)]
     for f in tc.fns:
